@@ -30,8 +30,13 @@ type Obligation struct {
 	dropped   int
 	Block     int        // block of the verified function in which the obligation arises (-1: none)
 	Merges    [][]string // edge conditions of the merge points passed so far (for case splitting)
+	Hyp       hypTag     // staged loop: drop head assumptions of this loop with a larger index
 	vc        *VC
 }
+
+// hypTag marks the assumption of invariant idx (1-based) at the head of the
+// staged loop numbered loop (0: none).
+type hypTag struct{ loop, idx int }
 
 // State maps storage names (heaps, locals, ghost variables) to the SMT term
 // holding their current value.  A missing key means "entry value".
@@ -153,6 +158,9 @@ type VC struct {
 	discWrites map[string][]string // during loop discovery: storage -> index terms written
 	lockedSt *State // state right after the latest lock acquisition (for locked(...))
 	lineTags []int
+	lineHyp  []hypTag // loop-head invariant assumptions of staged loops
+	curHyp   hypTag
+	hypLoops int
 	globalFact bool
 	ancestors map[int]map[int]bool
 	nameSigOverride *types.Signature
@@ -223,6 +231,11 @@ func (vc *VC) push(line string) {
 	}
 	vc.out = append(vc.out, line)
 	vc.lineTags = append(vc.lineTags, tag)
+	if strings.HasPrefix(line, "(assert") {
+		vc.lineHyp = append(vc.lineHyp, vc.curHyp)
+	} else {
+		vc.lineHyp = append(vc.lineHyp, hypTag{})
+	}
 }
 
 func (vc *VC) curTag() int {
@@ -256,6 +269,7 @@ func (vc *VC) checkpoint() checkpoint {
 func (vc *VC) rollback(cp checkpoint) {
 	vc.out = vc.out[:cp.outLen]
 	vc.lineTags = vc.lineTags[:cp.outLen]
+	vc.lineHyp = vc.lineHyp[:cp.outLen]
 	vc.obls = vc.obls[:cp.oblLen]
 	for _, n := range vc.declLog[cp.declLen:] {
 		delete(vc.declared, n)
@@ -412,6 +426,10 @@ func (o *Obligation) script(sbp *strings.Builder, extra []string) string {
 		// slice away assertions made in blocks that cannot reach this one in
 		// the loop-cut control-flow graph (dropping assumptions is sound)
 		if keep != nil && o.vc.lineTags[i] >= 0 && !keep[o.vc.lineTags[i]] {
+			continue
+		}
+		// staged loop: the later invariants are not hypotheses of this one
+		if h := o.vc.lineHyp[i]; o.Hyp.loop != 0 && h.loop == o.Hyp.loop && h.idx > o.Hyp.idx {
 			continue
 		}
 		if o.light && strings.HasPrefix(l, "(assert") && (strings.Contains(l, "to_int") || strings.Contains(l, "to_real")) {
